@@ -66,6 +66,33 @@ CHECKS = {
         technique="runtime assertion monitor on every generated event + logical-clock (draw count) bound, steered inputs",
         design="DESIGN.md section 2, C04",
     ),
+    "C05": dict(
+        script="checks/c05.py",
+        level="exploration",
+        text="Dispatch: for every published background name (README and list-file spellings) and every tabulated double-beta "
+             "level, thousands of deviate tapes are run through genbbsub(name) and through the scheme functions that the README "
+             "names for it, called directly; the two events must be bit-identical (same binary, same inputs). Catalogues: README "
+             "bullets, .lis files read through the library's own accessors, and the set of names decay0_generator accepts over a "
+             "candidate universe (README + .lis + reference names + every exported scheme symbol) must be equal; mode labels must "
+             "round-trip and match the README table.",
+        note="The name -> scheme table is derived from README annotations and exported headers, not from genbbsub.cc; daughters "
+             "follow unless the parent emitted an alpha; daughter nucleus of a double-beta isotope from (Z, A).",
+        technique="runtime differential monitor (dispatcher vs direct call, bit-identity) + set-equality monitor over enumerated catalogues",
+        design="DESIGN.md section 2, C05",
+    ),
+    "C06": dict(
+        script="checks/c06.py",
+        level="exploration",
+        text="The finite grid (51 isotopes + 4 unknown names) x levels -1..17 x modes 0..25 x 4 window kinds is enumerated; every cell is "
+             "configured and initialised through decay0_generator and the verdict compared with an executable model of the stated rules "
+             "(tables parsed from the reference source, synthetic gA datasets); accepted cells shoot events through the C04 monitor, rejected "
+             "cells must not shoot and must stay un-initialised. Thorough initialises every cell (exhaustive); quick samples 5% of the accepted "
+             "quadrature-heavy cells.",
+        note="Agreement of the model with the Fortran reference's ier (modes 1..20, no window) is established by C02 on the same cells; "
+             "tabulated levels whose spin is neither 0+ nor 2+ (3 levels) get no verdict.",
+        technique="runtime monitor against an executable reference model over an enumerated configuration grid",
+        design="DESIGN.md section 2, C06",
+    ),
     "C16": dict(
         script="checks/c16.py",
         level="exploration",
